@@ -60,7 +60,15 @@ def mixture(r, comp=None, delta_mode=None, peneloux=None, nmin=1, nmax=6):
         from tamoc import chemical_properties as cp
         chem, _cu, bio, _bu, _pj, _pju = cp.tamoc_data()
         ud = {}
+        # peneloux == 'partial': only some compounds carry a user volume shift, the others keep the database value
+        # C_pen = 0 (at least one of each kind when n >= 2)
+        keep = set(comp)
+        if peneloux == 'partial' and n >= 2:
+            k = r.randint(1, n - 1)
+            keep = set(r.sample(list(comp), k))
         for c in comp:
+            if c not in keep:
+                continue
             props = dict(chem[c])
             props.update(bio[c])
             props['C_pen'] = r.uniform(-5e-6, 5e-6) or 1e-6
@@ -68,7 +76,8 @@ def mixture(r, comp=None, delta_mode=None, peneloux=None, nmin=1, nmax=6):
             ud[c] = props
         kw['user_data'] = ud
     fm = dbm.FluidMixture(list(comp), **kw)
-    return fm, {'composition': list(comp), 'delta_mode': delta_mode, 'peneloux': bool(peneloux)}
+    return fm, {'composition': list(comp), 'delta_mode': delta_mode, 'peneloux': bool(peneloux),
+                'peneloux_partial': peneloux == 'partial'}
 
 
 def eos_args(fm):
